@@ -30,6 +30,12 @@ example : ∃ ind', readQString 7 (34 :: (encode [97, 34, 98, 92, 99, 9, 10, 0xc
     .ok ([97, 34, 98, 92, 99, 9, 10, 0xc3, 0xa9, 32], ind', [59]) :=
   yang_encode_roundtrip _ _ _ 0 (by decide) (by decide) (by decide)
 
+/-- non-vacuity (audit): the same text at column 0 followed by one blank and `{` (`k = 1`, the other continuation the
+    printers use) -/
+example : ∃ ind', readQString 0 (34 :: (encode [97, 34, 98, 92, 99, 9, 10, 0xc3, 0xa9, 32] ++ 34 :: (spaces 1 ++ [123, 10]))) =
+    .ok ([97, 34, 98, 92, 99, 9, 10, 0xc3, 0xa9, 32], ind', [123, 10]) :=
+  yang_encode_roundtrip _ _ _ 1 (by decide) (by decide) (by decide)
+
 /-- The hypothesis "no CR" cannot be dropped (F82): CR is a legal YANG character, `ypr_encode` copies it, and the
     lexer rejects a CR that is not followed by LF — and after CR LF the encoded string reads back differently. -/
 theorem yang_encode_roundtrip_fails_cr :
@@ -54,11 +60,21 @@ def TextOk (flags : Nat) (s : Bytes) : Prop :=
 instance (flags : Nat) (s : Bytes) : Decidable (TextOk flags s) := by
   unfold TextOk; exact inferInstance
 
+-- AUDIT: `printText_eq` is a definitional unfolding (`rfl`); it has no content of its own, it only fixes how the statements
+-- below relate to `ypr_text`.  It is (rightly) not listed in `Audit/C10.lean`.
 /-- `ypr_text l flags name s` is `indent ++ name ++ printTextArg …` (by definition of the model): the theorems below
     are about the part after the name, read by `get_argument` with the lexer's column counter after the keyword. -/
 theorem printText_eq (fmt : Bool) (level flags : Nat) (name s : Bytes) :
     printText fmt level flags name s = indentOf fmt level ++ name ++ printTextArg fmt level flags name.length s := rfl
 
+-- AUDIT (no vacuity; an unproved side claim): `hind` is an *equation* (the file header still says "inequality": stale — with an
+-- over-counted column the lexer strips more blanks from continuation lines than the printer wrote, so `≥` would not do).
+-- It is an assumption about the lexer's state after the keyword.  That the lexer really is in that state "for every YANG
+-- keyword" is stated in prose only: `KwOk` yields `∃ ind'`, not `ind' = ind + kw.length`, and no theorem runs `get_keyword`
+-- over `indent ++ name` in front of `printTextArg`.  The audit example after the witnesses below checks it on one
+-- representative statement (`default`, level 1, multi-line text) by running `getKeyword` and `getArgument` in sequence.
+-- Minimal repair: a lemma `kwAt ind d (kw ++ 32 :: r) = .ok { tok := .kw, word := kw, ind := ind + kw.length, … }` for
+-- every keyword of `yangKwTrie` (finite, one `simp` per keyword as in `kwok_type`), composed with this theorem.
 /-- **Round trip of `ypr_text`** (after the repair of F5, F35 and F83).  For every formatting mode, indentation level,
     flag set, statement name and valid text `s` — without CR if it is printed in double quotes —, `get_argument` applied
     to what `ypr_text` printed after the statement name returns exactly `s`, with the quoting style the printer chose,
@@ -99,6 +115,25 @@ example : ∃ ind', getArgument false 9 (printTextArg true 1 3 7 [105, 116, 39, 
     .ok { word := some [105, 116, 39, 39, 115, 13, 92], flags := LYS_SINGLEQUOTED, ind := ind', rest := [123] } :=
   yang_text_roundtrip_partial true 1 3 7 9 1 _ [123] (by decide) (by decide) (by decide) (by decide)
 
+/-- non-vacuity (audit): the hypothesis `hind` is what the lexer itself produces — `get_keyword` started at column 0 of
+    the line `  default "a<LF>  b";` (level 1, single-line flag) returns the keyword with `ctx->indent` = indentation +
+    keyword length = 9, and `get_argument` continued from there returns the text -/
+example : getKeyword 0 1 (printText true 1 1 [100, 101, 102, 97, 117, 108, 116] [97, 10, 32, 32, 98] ++ [59]) =
+    .ok { tok := .kw, word := [100, 101, 102, 97, 117, 108, 116], ind := (indentOf true 1).length + 7, depth := 1,
+          rest := printTextArg true 1 1 7 [97, 10, 32, 32, 98] ++ [59] } := by rfl
+example : ∃ k a, getKeyword 0 1 (printText true 1 1 [100, 101, 102, 97, 117, 108, 116] [97, 10, 32, 32, 98] ++ [59]) = .ok k ∧
+    k.word = [100, 101, 102, 97, 117, 108, 116] ∧ getArgument false k.ind k.rest = .ok a ∧
+    a.word = some [97, 10, 32, 32, 98] ∧ a.rest = [59] :=
+  ⟨_, _, rfl, rfl, rfl, rfl, rfl⟩
+
+/-- non-vacuity (audit): shrink mode (`fmt = false`: no indentation at all), deep level, double-quoted block style -/
+example : ∃ ind', getArgument false 3 (printTextArg false 40 0 11 [97, 32, 10, 32, 98, 9] ++ (spaces 1 ++ [123])) =
+    .ok { word := some [97, 32, 10, 32, 98, 9], flags := LYS_DOUBLEQUOTED, ind := ind', rest := [123] } :=
+  yang_text_roundtrip_partial false 40 0 11 3 1 _ [123] (by decide) (by decide) (by decide) (by decide)
+
+-- AUDIT (naming only): the theorem below refutes the statement its docstring describes (the round trip without the no-CR
+-- hypothesis, finding F82), but it is *named* `…_fails_F50`; F50 is an unrelated finding (an XPath out-parameter leak,
+-- property C05).  The name is referenced by `evidence/C10.json`, so it is kept; `yang_text_roundtrip_fails_F82` is an alias.
 /-- F82 remains: a CR in a double-quoted text: the lexer rejects its own printer's output. -/
 theorem yang_text_roundtrip_fails_F50 :
     ¬ ∀ (fmt : Bool) (level flags nameLen ind : Nat) (s rest : Bytes), isYangText s = true →
@@ -111,6 +146,14 @@ theorem yang_text_roundtrip_fails_F50 :
   rw [this] at e
   simp at e
 
+/-- AUDIT: alias under the number of the finding the statement is about -/
+theorem yang_text_roundtrip_fails_F82 :
+    ¬ ∀ (fmt : Bool) (level flags nameLen ind : Nat) (s rest : Bytes), isYangText s = true →
+      flagSingleQuoted flags = false → (flagSingleLine flags = true → ind = (indentOf fmt level).length + nameLen) → RestOk rest →
+      ∃ ind', getArgument false ind (printTextArg fmt level flags nameLen s ++ rest) =
+        .ok { word := some s, flags := quoteFlag flags, ind := ind', rest := rest } :=
+  yang_text_roundtrip_fails_F50
+
 /-! ## `yprp_stmt` ↔ `parse_ext_substmt`: generic statement trees
 
 `WfStmts ss` (LemmasTree): every keyword lexes as itself (`KwOk`, and `KwBareOk` where `;` follows it directly: a
@@ -118,6 +161,20 @@ YANG keyword without argument must be `input`/`output`, the printer writes `leaf
 after `leaf`); every argument is absent, or unquoted and able to stand without quotes (`UnquotedOk`), or double-quoted
 without CR (F82), or single-quoted. -/
 
+-- AUDIT: `WfStmts` bundles, per statement, the structure `KwOk kw` whose field `lex` quantifies over every column, depth
+-- and continuation.  It is satisfiable (proved below for `type`, `units` and `e:x`; the witnesses use all three), so the
+-- three theorems are not vacuous.  Two limits of what they cover, neither stated in their docstrings:
+--  (1) "holds for every YANG keyword" (docstring of `KwOk`) is prose; only the keywords of the witnesses are proved.
+--  (2) `KwOk` is FALSE for an extension keyword whose prefix is a YANG keyword followed by `-`, `_` or `.` (`type-x:y`,
+--      `key-chain:…`, `list_a:…`): `lysp_match_kw` matches `type`, sees a non-alphanumeric byte and does not back out, and
+--      `get_keyword` then refuses the `-` ("expected a keyword followed by a separator").  So for such statements the
+--      theorems say nothing — `stmt_tree_roundtrip_vacuous_for_keywordlike_prefix` — and the round trip in fact fails:
+--      the printed statement is rejected by the lexer (example there).  Checked on the C code as well (yanglint on a
+--      module with `import e { prefix type-x; } type-x:x "arg";` → "Invalid character sequence "type-", expected a keyword
+--      followed by a separator"), although `type-x` is a legal prefix (RFC 7950 §7.1.4: an identifier).  This looks like a
+--      defect of the parser that is not in `known_findings.json`; decision needed: record it as a finding and state the
+--      exclusion in the docstrings / MANIFEST text.  The statement of the theorems needs no repair (the hypothesis is the
+--      right one for the code as it is).
 /-- The statements `ss` (with all their substatements) printed by `yprp_stmt` at any level inside a block, read by the
     substatement loop of `parse_ext_substmt` with enough fuel, come back as exactly `ss` — keywords, arguments, quoting
     flags and tree shape — and the loop stops behind the closing brace. -/
@@ -143,6 +200,21 @@ theorem stmt_roundtrip (fmt : Bool) (l ind depth f : Nat) (s : Stmt) (rest : Byt
     (hwf : WfStmt s) (hh : depth + height s ≤ 500) (hf : need s ≤ f) :
     ∃ ind', parseStmt f (kwOf s) ind depth (afterKw fmt l s rest) = .ok (s, ind', depth, 10 :: rest) :=
   pstmt_all s fmt l ind depth f rest hwf hh hf
+
+/-- AUDIT: the statement-tree theorems say nothing about a statement whose keyword is `type-x:y` (an extension instance
+    with the legal prefix `type-x`), whatever its argument, children and siblings: it is never well-formed, because
+    `get_keyword` does not lex `type-x:y` as itself (it stops with "expected a keyword followed by a separator"). -/
+theorem stmt_tree_roundtrip_vacuous_for_keywordlike_prefix (arg : Option Bytes) (flags : Nat) (kids ss : List Stmt) :
+    ¬ WfStmts (.mk [116, 121, 112, 101, 45, 120, 58, 121] arg flags kids :: ss) := by
+  intro h
+  obtain ⟨tok, ind', _, e⟩ := h.1.1.lex 0 0 32 [] (Or.inl rfl)
+  have : kwAt 0 0 ([116, 121, 112, 101, 45, 120, 58, 121] ++ 32 :: []) = .error .inStrExp := by rfl
+  rw [this] at e
+  cases e
+
+/-- … and the round trip does fail there: the lexer rejects the printed statement `type-x:y "a";` -/
+example : getKeyword 0 1 (printStmt true 0 (.mk [116, 121, 112, 101, 45, 120, 58, 121] (some [97]) LYS_DOUBLEQUOTED [])) =
+    .error .inStrExp := by rfl
 
 /-! non-vacuity: `e:x "a<LF>b" { type string; e:x; units 'it''s'; }` -/
 
@@ -191,5 +263,46 @@ theorem exampleTree_wf : WfStmts exampleTree := by
 example : ∃ ind', parseStmt.parseChildren 10 4 1 (10 :: (printStmts true 1 exampleTree ++ (spaces 0 ++ 125 :: [10]))) =
     .ok (exampleTree, ind', 0, [10]) :=
   stmt_tree_roundtrip true 1 4 1 0 10 exampleTree [10] exampleTree_wf (by decide) (by decide) (by decide)
+
+/-- non-vacuity (audit): `stmt_tree_roundtrip_input_fuel` at the example tree — the fuel is the parser's own `length + 1` -/
+example : ∃ ind', parseStmt.parseChildren ((10 :: (printStmts true 1 exampleTree ++ (spaces 0 ++ 125 :: [10]))).length + 1) 4 1
+    (10 :: (printStmts true 1 exampleTree ++ (spaces 0 ++ 125 :: [10]))) = .ok (exampleTree, ind', 0, [10]) :=
+  stmt_tree_roundtrip_input_fuel true 1 4 1 0 exampleTree [10] exampleTree_wf (by decide) (by decide)
+
+/-- the single statement of `exampleTree` -/
+def exampleStmt : Stmt :=
+  .mk [101, 58, 120] (some [97, 10, 98]) LYS_DOUBLEQUOTED
+    [.mk [116, 121, 112, 101] (some [115, 116, 114, 105, 110, 103]) 0 [],
+     .mk [101, 58, 120] none 0 [],
+     .mk [117, 110, 105, 116, 115] (some [105, 116, 39, 39, 115]) LYS_SINGLEQUOTED []]
+
+/-- non-vacuity (audit): `stmt_roundtrip` at that statement (a block with three substatements), entered after its keyword
+    at depth 3 -/
+example : ∃ ind', parseStmt 9 (kwOf exampleStmt) 7 3 (afterKw true 1 exampleStmt [125]) = .ok (exampleStmt, ind', 3, 10 :: [125]) :=
+  stmt_roundtrip true 1 7 3 9 exampleStmt [125] exampleTree_wf.1 (by decide) (by decide)
+
+/-- non-vacuity (audit): `e:x { e:x "q" { type string; } units 'u'; }  type a/b;` — three levels of nesting, two top-level
+    siblings, a block without argument, an unquoted argument containing `/` -/
+def auditTree : List Stmt :=
+  [.mk [101, 58, 120] none 0
+    [.mk [101, 58, 120] (some [113]) LYS_DOUBLEQUOTED
+       [.mk [116, 121, 112, 101] (some [115, 116, 114, 105, 110, 103]) 0 []],
+     .mk [117, 110, 105, 116, 115] (some [117]) LYS_SINGLEQUOTED []],
+   .mk [116, 121, 112, 101] (some [97, 47, 98]) 0 []]
+
+theorem auditTree_wf : WfStmts auditTree := by
+  refine ⟨⟨kwok_ex, ⟨rfl, fun _ => kwbare_ex⟩, ?_⟩,
+    ⟨kwok_type, Or.inl ⟨rfl, ⟨by decide, by decide, by decide, by decide⟩⟩, trivial⟩, trivial⟩
+  refine ⟨⟨kwok_ex, Or.inr (Or.inl ⟨rfl, by decide, by decide⟩), ?_⟩,
+    ⟨kwok_units, Or.inr (Or.inr ⟨rfl, by decide⟩), trivial⟩, trivial⟩
+  exact ⟨⟨kwok_type, Or.inl ⟨rfl, ⟨by decide, by decide, by decide, by decide⟩⟩, trivial⟩, trivial⟩
+
+/-- non-vacuity (audit): shrink mode, level 3, entered at depth 2, two blanks before the closing brace -/
+example : ∃ ind', parseStmt.parseChildren 20 0 2 (10 :: (printStmts false 3 auditTree ++ (spaces 2 ++ 125 :: [59]))) =
+    .ok (auditTree, ind', 1, [59]) :=
+  stmt_tree_roundtrip false 3 0 2 2 20 auditTree [59] auditTree_wf (by decide) (by decide) (by decide)
+
+/-- non-vacuity (audit): the fuel hypothesis is a real one — with fuel 2 the same input is not parsed -/
+example : parseStmt.parseChildren 2 0 2 (10 :: (printStmts false 3 auditTree ++ (spaces 2 ++ 125 :: [59]))) = .error .fuel := by rfl
 
 end LyModel.Props.C10
